@@ -106,6 +106,19 @@ def run(chk):
                 chk.violation("distance_to_surface-input-form", dict(vertices=m["V"].tolist(), radius=m["r"], form=form, outcome=st2,
                                                                      got=None if st2 != "ok" else d2.tolist(), expected=np.asarray(ref).tolist()))
                 break
+        # ... and as arrays of any shape (a row, a column, a grid): one distance per angle, in the shape of the input
+        n2 = (len(ang) // 2) * 2
+        for form, arg in (("(1, N) row", ang[None, :].copy()), ("(N, 1) column", ang[:, None].copy()), ("(2, N/2) grid", ang[:n2].reshape(2, -1).copy())):
+            st2, g = C.excname(lambda: np.asarray(m["sh"].distance_to_surface(arg), float))
+            ref = d[: arg.size].reshape(arg.shape)
+            if st2 != "ok" or g.shape != arg.shape or not np.allclose(g, ref, rtol=1e-12, atol=0, equal_nan=True):
+                bad = None if st2 != "ok" or g.shape != arg.shape else int(np.flatnonzero(~np.isclose(g, ref, rtol=1e-12, atol=0, equal_nan=True).ravel())[0])
+                chk.violation("distance_to_surface-input-form", dict(vertices=m["V"].tolist(), radius=m["r"], form=form, outcome=st2,
+                                                                     result_shape=None if st2 != "ok" else list(g.shape), first_differing_entry=bad,
+                                                                     theta=None if bad is None else float(arg.ravel()[bad]),
+                                                                     got=None if bad is None else float(g.ravel()[bad]), as_1d=None if bad is None else float(ref.ravel()[bad])))
+                break
+            chk.count("angles-as-" + form)
         pts = cen[:2] + d[:, None] * np.stack([np.cos(ang), np.sin(ang)], 1)
         m["pts"] = pts
         if type(m["sh"]).__name__ == "ConvexPolygon":
